@@ -20,9 +20,24 @@ EXPLANATION = (
     "C06.identity: a new PDDLType is stored under a key only when the key is absent (otherwise earlier children keep pointing at "
     "a stale object). C06.parentlink: the parent of a child type derives from the token after the dash. C06.walk: finite "
     "valuation of is_sub_type_aux over (names equal, parent is None): True only on name equality, False at the root, otherwise "
-    "recursion on (parent, same other). C06.root: 'object' is registered as ObjectType and untyped names get ObjectType as parent."
+    "recursion on (parent, same other). C06.root: 'object' is registered as ObjectType and untyped names get ObjectType as parent. "
+    "C06.range (per quantifier entry point): the quantified parameter is bound to an object iff <object type>.is_sub_type(<quantified type>); "
+    "no conforming object is skipped; a non-conforming object ends neither the walk over the objects nor the walk over the quantifiers "
+    "(range-stops); the map that received the binding is handed on to the per-object work (range-binding-unused) and its other entries are "
+    "oriented like the binding, parameter -> object (range-map-orientation). C06.tokenwalk (parse_types, helpers in place): the loop that "
+    "tests the current token against '-' cannot be left while tokens remain; a `while cursor < len(tokens)` walk starts at token 0, its "
+    "condition has the truth table of cursor < length over small lengths, and on every acyclic path through one turn the cursor advances by "
+    "exactly the token offsets that turn read (offset 0 = the token tested, offset 1 = the parent after the dash); by valuation of 'the "
+    "current token is the separator': a name reaches the collecting statement and no flushing one, the separator the flushing ones and "
+    "not the collecting one. C06.grouplink: by valuation of 'the parent token is object' the parent a flushed group is linked to resolves "
+    "(definitions followed along the edges the valuation leaves open) to ObjectType exactly when it is; every turn of a walk over the "
+    "collected names that links to a looked-up parent passes a link (new type with that parent / parent link of the registered type) on "
+    "every path; on every way from the end of the token walk to the return the names collected after the last separator are registered "
+    "as children of ObjectType. C06.graph (create_type_hierarchy_graph): by provenance, every key of the type dictionary is added as a "
+    "node and for every type that has a parent (valuation) the edge (name of its parent, own name) on every turn of a walk over all "
+    "types that is not left early; the filled graph is what every return hands back."
 )
-UNDECIDED = ("order independence of an arbitrary re-implementation of parse_types beyond the two hazards checked; that every "
+UNDECIDED = ("order independence of an arbitrary re-implementation of parse_types beyond the hazards checked; that every "
              "place ranging over types has been found (only comparisons that the type inference can see are judged)")
 
 
@@ -71,6 +86,62 @@ def rule_layering(repo: Repo, rid: str = "C06.layering") -> RuleResult:
     return r
 
 
+# C06.range, orientation of the map the quantified parameter is bound in ({parameter name: object name}): path steps that mark a source
+# as "the call's objects" (may only be values) / "the schema's parameters" (may only be keys).  Reason: a forall body mentions both the
+# action's parameters and the quantified one; it is instantiated through ONE map keyed by parameter name.
+RANGE_MAP_VALUE_SOURCES = ("attr:grounded_call_objects",)
+RANGE_MAP_KEY_SOURCES = ("attr:signature",)
+
+
+def _trace_opt(p, e, keys=False):
+    try:
+        return p.trace(e, keys=keys)
+    except (KeyError, RecursionError):
+        return set()
+
+
+def _binding_read_after(f: FuncInfo, G, cont: ast.AST, w: ast.AST, wn: int, pm) -> Optional[bool]:
+    """is the map that received the binding handed on afterwards (argument of a call, returned, stored) on some way the conforming
+    object takes?  None: not decidable here (the map is not a local name / a display used in place)"""
+    g = G.g
+    if isinstance(cont, ast.Dict):
+        cur = cont
+        while cur in pm and not isinstance(pm[cur], ast.stmt):
+            cur = pm[cur]
+            if isinstance(cur, ast.Call):
+                return True         # the display is built as the argument of the call that consumes it
+        st = pm.get(cur)
+        if isinstance(st, ast.Assign) and len(st.targets) == 1 and isinstance(st.targets[0], ast.Name):
+            names = L.aliases(f, {st.targets[0].id})
+        elif isinstance(st, ast.AnnAssign) and isinstance(st.target, ast.Name):
+            names = L.aliases(f, {st.target.id})
+        else:
+            return None
+    elif isinstance(cont, ast.Name):
+        names = L.aliases(f, {cont.id})
+    else:
+        return None
+    after = G.reach({"sub": True}, start=wn)
+    for n in ast.walk(f.node):
+        if not (isinstance(n, ast.Name) and n.id in names and isinstance(n.ctx, ast.Load)):
+            continue
+        par = pm.get(n)
+        if isinstance(par, ast.Subscript) and par.value is n and isinstance(par.ctx, (ast.Store, ast.Del)):
+            continue                # another entry written into the map
+        if isinstance(par, (ast.Assign, ast.AnnAssign)) and par.value is n and \
+                all(isinstance(t, ast.Name) for t in (par.targets if isinstance(par, ast.Assign) else [par.target])):
+            continue                # a plain copy of the reference (its uses are looked at under the alias)
+        if isinstance(par, ast.Attribute) and par.value is n and par.attr in ("update", "setdefault", "__setitem__", "pop", "clear"):
+            continue                # the map is only written
+        un = g.node_containing(n)
+        if un is None or un not in after:
+            continue
+        if un == wn and isinstance(w, ast.stmt):
+            continue                # the binding statement itself
+        return True
+    return False
+
+
 def rule_range(repo: Repo, rid: str, spec: str, guarded_callees=None) -> RuleResult:
     """the quantifier range: the quantified parameter is bound to an object only when is_sub_type(object type, quantified type)
     is true.  `spec` is a public entry point; private helpers are analysed in place."""
@@ -94,17 +165,21 @@ def rule_range(repo: Repo, rid: str, spec: str, guarded_callees=None) -> RuleRes
 
     # per-object work: the quantified parameter is bound to (the name of) a problem object
     work = []
+    container = {}      # id(work item) -> the expression of the map that receives the binding
     for n in ast.walk(f.node):
         if isinstance(n, ast.Assign) and len(n.targets) == 1 and isinstance(n.targets[0], ast.Subscript) and is_qparam(n.targets[0].slice) \
                 and from_objects(n.value):
             work.append(n)
+            container[id(n)] = n.targets[0].value
         elif isinstance(n, ast.Dict):
             for k, v in zip(n.keys, n.values):
                 if k is not None and is_qparam(k) and from_objects(v):
                     work.append(v)
+                    container[id(v)] = n
         elif isinstance(n, ast.Call) and isinstance(n.func, ast.Attribute) and n.func.attr in ("update", "setdefault", "__setitem__") and len(n.args) == 2 \
                 and is_qparam(n.args[0]) and from_objects(n.args[1]):
             work.append(n)
+            container[id(n)] = n.func.value
     if not work:
         raise AnalysisError(f"{spec}: the binding of the quantified parameter to a problem object was not found")
     if not atoms:
@@ -147,6 +222,57 @@ def rule_range(repo: Repo, rid: str, spec: str, guarded_callees=None) -> RuleRes
                        "the quantifier does not range over the type and all its subtypes"))
     else:
         r.ok({"conforming_objects": "bound on every path"})
+    # ... and an object that does NOT conform only drops out itself: it ends neither the walk over the objects nor the walk over the
+    # quantifiers it is tested against (the other quantifiers still range over it, the other objects are still visited)
+    r.site(f.qn + " [a non-conforming object ends no walk]")
+    stops = False
+    for w in work:
+        cur = w
+        chain = []
+        while cur in pm:
+            cur = pm[cur]
+            if isinstance(cur, ast.For):
+                chain.append(cur)
+                if cur in loops:
+                    break
+        if not chain or chain[-1] not in loops:
+            continue
+        for lp in chain:
+            # (a walk whose turns are not entered for a non-conforming object -- it runs over a pre-filtered collection -- is not judged)
+            entered = [m for m, l in g.succ[g.node_of(lp)] if l == "iter" and m in seen_f]
+            if entered and L.leaves_loop_early(G, {"sub": False}, lp):
+                stops = True
+    if stops:
+        r.fail(Finding(rid, f, "range-stops", "an object whose type is not a subtype of the quantified type ends a walk (over the objects or over the "
+                       "quantifiers) instead of being passed over: later objects / other quantifiers are never considered"))
+    else:
+        r.ok({"non_conforming_object": "passed over, no walk ends"})
+    # the binding is what the per-object work is done with: the map that received it is handed on (a binding nobody reads leaves the
+    # quantifier without any object), and the entries it is added to are oriented like the binding itself (parameter -> object)
+    r.site(f.qn + " [binding used, map oriented parameter -> object]")
+    unused, misoriented = False, []
+    for w in work:
+        wn_ = g.node_containing(w) if not isinstance(w, ast.stmt) else g.node_of(w)
+        cont = container.get(id(w))
+        if cont is None or wn_ is None:
+            continue
+        ents = L.map_entries(_trace_opt(p, cont, keys=True))
+        for kind_, src in ents:
+            if kind_ == "key" and any(s_ in RANGE_MAP_VALUE_SOURCES for s_ in src):
+                misoriented.append(("key", src))
+            if kind_ == "value" and any(s_ in RANGE_MAP_KEY_SOURCES for s_ in src) and not any(s_ in RANGE_MAP_VALUE_SOURCES for s_ in src):
+                misoriented.append(("value", src))
+        used = _binding_read_after(f, G, cont, w, wn_, pm)
+        if used is False:
+            unused = True
+    if unused:
+        r.fail(Finding(rid, f, "range-binding-unused", "the map in which the quantified parameter is bound to the object is never handed on after the "
+                       "binding: the per-object condition / effect is not instantiated for any object"))
+    elif misoriented:
+        r.fail(Finding(rid, f, "range-map-orientation", f"the map in which the quantified parameter is bound to an object has {misoriented[0][0]}s from "
+                       f"{misoriented[0][1]}: action parameters must be its keys and call objects its values, like the binding itself"))
+    else:
+        r.ok({"binding": "handed on", "map": "parameter -> object"})
     r.site(f.qn + " [all objects]")
     if loops and not any(any(s_.startswith("slice:") or s_.startswith("arg0:filter") for s_ in x) for lp in loops for x in p.trace(lp.iter)):
         r.ok({"iterates": unparse(loops[0].iter, 60)})
@@ -288,15 +414,18 @@ def _ctor_calls(f: FuncInfo, cls: str) -> List[ast.Call]:
 
 
 def _registration_context(f: FuncInfo, ctor: ast.Call, maps: set, pm) -> str:
-    """how does the constructed object reach the returned map?  'store' | 'setdefault' | 'update' | 'name:<x>' | 'none'"""
+    """how does the constructed object reach the returned map?  'store' | 'setdefault' | 'update' | 'initial' (content of the display the
+    map starts as) | 'name:<x>' | 'none'"""
     cur = ctor
     while cur in pm:
         par = pm[cur]
-        if isinstance(par, ast.Assign):
+        if isinstance(par, (ast.Assign, ast.AnnAssign)):
             if cur is par.value:
-                for t in par.targets:
+                for t in (par.targets if isinstance(par, ast.Assign) else [par.target]):
                     if isinstance(t, ast.Subscript) and isinstance(t.value, ast.Name) and t.value.id in maps:
                         return "store"
+                    if isinstance(t, ast.Name) and t.id in maps and isinstance(cur, (ast.Dict, ast.DictComp)) and cur is not ctor:
+                        return "initial"    # the returned map starts as this display / comprehension: its values are registered
                     if isinstance(t, ast.Name):
                         return f"name:{t.id}"
             return "none"
@@ -363,7 +492,7 @@ def rule_closure(repo: Repo) -> RuleResult:
         else:
             r.fail(Finding("C06.closure", f, "unregistered-type", f"{unparse(c, 70)} is captured (e.g. as a parent) but never registered in "
                            f"the returned map: the type does not exist for :constants/:predicates and gets a stale twin if declared later", node=c))
-    r.require_sites(2)
+    r.require_sites(1)
     return r
 
 
@@ -406,6 +535,11 @@ def rule_identity(repo: Repo) -> RuleResult:
                         # absent in body when test is `not in`; absent in orelse when test is `in`
                         if (not is_in and in_body) or (is_in and not in_body):
                             return True
+            if isinstance(par, ast.ExceptHandler) and par.type is not None and "KeyError" in unparse(par.type) and isinstance(pm.get(par), ast.Try):
+                # EAFP: the handler runs when the lookup `map[key]` in the guarded block failed, i.e. when the key is absent
+                if any(isinstance(x, ast.Subscript) and isinstance(x.value, ast.Name) and x.value.id in maps and isinstance(x.ctx, ast.Load)
+                       for b_ in pm[par].body for x in ast.walk(b_)):
+                    return True
             if isinstance(par, ast.DictComp):
                 for gen in par.generators:
                     for cond in gen.ifs:
@@ -415,12 +549,39 @@ def rule_identity(repo: Repo) -> RuleResult:
             cur = par
         return False
 
+    def present_matcher(e):
+        """atom 'present': a name is (already) a key of the returned map -- `k in map`, `map.get(k) is not None`, also through a local
+        that holds the result of the lookup"""
+        def lookup_of(x):
+            if isinstance(x, ast.Name):
+                defs_ = [v_ for nm_, v_, _s in C.simple_bindings(f.node) if nm_ == x.id]
+                x = defs_[0] if len(defs_) == 1 else x
+            return isinstance(x, ast.Call) and isinstance(x.func, ast.Attribute) and x.func.attr == "get" and len(x.args) == 1 \
+                and isinstance(x.func.value, ast.Name) and x.func.value.id in maps
+        if isinstance(e, ast.Compare) and len(e.ops) == 1:
+            op, rhs = e.ops[0], e.comparators[0]
+            if isinstance(op, (ast.In, ast.NotIn)) and isinstance(rhs, ast.Name) and rhs.id in maps:
+                return "present" if isinstance(op, ast.In) else "!present"
+            if isinstance(op, (ast.Is, ast.IsNot, ast.Eq, ast.NotEq)) and isinstance(rhs, ast.Constant) and rhs.value is None and lookup_of(e.left):
+                return "!present" if isinstance(op, (ast.Is, ast.Eq)) else "present"
+        return None
+
+    G = L.Guards(f, present_matcher)
+    when_present = G.reach({"present": True}) if "present" in G.atoms_seen else None
+
+    def unreachable_when_present(c: ast.AST) -> bool:
+        """guard clauses / early `continue`: the storing statement cannot be reached when the membership tests say 'already there'"""
+        if when_present is None:
+            return False
+        n = g.node_containing(c)
+        return n is not None and n not in when_present
+
     for c in _ctor_calls(f, "PDDLType"):
         ctx = _registration_context(f, c, maps, pm)
         if ctx in ("none",) or ctx.startswith("name:"):
             continue
         r.site(L.site(f, c, "stored type"))
-        if ctx == "setdefault" or absent_guard(c, None):
+        if ctx in ("setdefault", "initial") or absent_guard(c, None) or unreachable_when_present(c):
             r.ok({"stored": unparse(c, 60), "how": ctx, "only_when_absent": True})
         else:
             r.fail(Finding("C06.identity", f, f"overwrite:{ctx}", f"{unparse(c, 60)} is stored with `{ctx}` without testing that the name is "
@@ -565,15 +726,31 @@ def rule_walk(repo: Repo) -> RuleResult:
     # the public wrapper passes (self, other) in that order
     w = repo.func("PDDLType.is_sub_type")
     r.site(w.qn)
-    calls = [c for c in L.calls_in(w.node) if callee_name(c) == "is_sub_type_aux"]
-    okw = False
-    for c in calls:
-        if len(c.args) == 2 and isinstance(c.args[0], ast.Name) and c.args[0].id == w.self_name and isinstance(c.args[1], ast.Name) \
-                and c.args[1].id in w.params and c.args[1].id != w.self_name:
-            okw = True
-    rets = L.func_returns(w)
-    direct = all(isinstance(x.value, ast.Call) and callee_name(x.value) == "is_sub_type_aux" for x in rets) and rets
-    if okw and direct:
+    wp = L.prov(repo, w)
+    others = [x for x in w.params if x != w.self_name]
+
+    def wtr(e):
+        try:
+            return wp.trace(e)
+        except (KeyError, RecursionError):
+            return set()
+
+    def passes_self_other(c: ast.AST) -> bool:
+        """a call is_sub_type_aux(<the receiver>, <the other type>): the arguments are identified by provenance, not by their spelling"""
+        if not (isinstance(c, ast.Call) and callee_name(c) == "is_sub_type_aux"):
+            return False
+        a0 = L.arg_of(c, f, a, 0)
+        a1 = L.arg_of(c, f, b, 1)
+        if a0 is None or a1 is None:
+            return False
+        return wtr(a0) == {("self",)} and len(others) == 1 and wtr(a1) == {(f"param:{others[0]}",)}
+
+    # every value the wrapper can return is that call (a returned local is followed back to what it was assigned)
+    rets = L.returned_exprs(w)
+    origins = [o for _rt, os_ in rets for o in os_]
+    okw = any(passes_self_other(o) for o in origins)
+    direct = bool(rets) and all(os_ and all(isinstance(o, ast.Call) and callee_name(o) == "is_sub_type_aux" for o in os_) for _rt, os_ in rets)
+    if okw and direct and all(passes_self_other(o) for o in origins):
         r.ok({"is_sub_type": "returns is_sub_type_aux(self, other)"})
     else:
         r.fail(Finding("C06.walk", w, "wrapper", "is_sub_type does not return is_sub_type_aux(self, other_type) unchanged"))
@@ -626,12 +803,349 @@ def rule_root(repo: Repo) -> RuleResult:
     return r
 
 
+# ----------------------------------------------------------------------------------------------------------------------------------
+# the walk over the declaration tokens (static: CFG paths, guard valuation, provenance -- helpers in sa/rules/_c06_util.py)
+# ----------------------------------------------------------------------------------------------------------------------------------
+# oracle constants (named in _c06_util): DASH '-' separates the names of a group from their parent in a typed list (PDDL); ROOT_NAME
+# 'object' / ROOT_GLOBAL ObjectType is the root of every type tree; FIRST_TOKEN 0: a typed list starts with its first token.
+# create_type_hierarchy_graph: an edge runs from the PARENT to the CHILD.  Reason: pinned by tests/models_tests (the root is the node of
+# in-degree 0, nx.bfs_tree from it lists the hierarchy), so the descendants of a type in the graph are its subtypes.
+GRAPH_EDGE = ("parent", "child")
+GRAPH_CTOR = "DiGraph"                                   # networkx directed graph
+GRAPH_NODE_METHODS = {"add_node": "one", "add_nodes_from": "many"}
+GRAPH_EDGE_METHODS = {"add_edge": "one", "add_edges_from": "many"}
+
+
+def rule_tokenwalk(repo: Repo, rid: str = "C06.tokenwalk") -> RuleResult:
+    """parse_types reads EVERY token of the declaration in its role: the walk is not left before the tokens are used up, a cursor starts
+    at the first token, runs while it is below the number of tokens and advances by the tokens each turn consumed; a token that is not
+    the separator is collected as a name and nothing else happens, the separator (and only it) makes the next token the parent of the group."""
+    from . import _c06_util as U
+    r = RuleResult(rid, "parse_types: every token is visited; a name is collected, a '-' (only) flushes the group with the NEXT token as its parent",
+                   "every 'child ... - parent' line of the declaration is read, whatever the number and order of lines")
+    w = U.TypesWalk(repo)
+    f, g, G = w.f, w.g, w.G
+    r.site(f.qn)
+    if w.loop is None or "dash" not in G.atoms_seen:
+        r.notes.append("no loop with a test of the current token against '-' found: the token walk is UNDECIDED by this rule")
+        r.ok({"undecided": "token loop / separator test not recognised"})
+        r.require_sites(1)
+        return r
+    # (a) the walk is not left while tokens remain
+    r.site(f.qn + " [walk not left early]")
+    val_more = {"more": True} if "more" in G.atoms_seen else {}
+    if L.leaves_loop_early(G, val_more, w.loop):
+        r.fail(Finding(rid, f, "token-walk:left-early", "the loop over the declaration tokens can be left (break / return) while tokens remain: the "
+                       "declaration lines after that point are ignored", node=w.loop))
+    else:
+        r.ok({"token_loop": "runs until the tokens are used up"})
+    # (b) a cursor walk: start, condition, advance
+    r.site(f.qn + " [cursor]")
+    bad = U.cursor_findings(w)
+    if bad is None:
+        r.ok({"cursor": "no `while cursor < len(tokens)` walk with constant steps (iteration visits every token by construction / not decided)"})
+    elif bad:
+        r.fail(Finding(rid, f, bad[0], bad[1], node=bad[2]))
+    else:
+        r.ok({"cursor": "starts at 0, runs while cursor < len(tokens), advances by the tokens consumed on every path"})
+    # (c) roles of the tokens, by valuation of `current token is the separator`
+    r.site(f.qn + " [roles of name and separator]")
+    og0 = w.open0
+    collect = w.collect_nodes() & w.inside
+    flush = {n for _s, n, parent, _k in w.link_sites() if n in w.inside and "OTHER" in (w.parent_kinds(og0, parent) or ())}
+    flush |= {n for _c, n in w.parent_registrations() if n in w.inside}
+    if not collect or not flush:
+        r.ok({"undecided": f"collecting statement(s): {len(collect)}, flushing statement(s): {len(flush)} -- idiom not recognised"})
+    else:
+        is_dash, is_name = U.OpenGraph(G, {"dash": True}).seen, U.OpenGraph(G, {"dash": False}).seen
+        problems = []
+        if collect & is_dash:
+            problems.append(("token-roles:separator-collected", "with the current token being '-' the statement that collects a type name is reached: the "
+                             "separator becomes a type and names lose their parent"))
+        if flush & is_name:
+            problems.append(("token-roles:name-flushes", "with the current token being a NAME the group is flushed / the following token is taken as a "
+                             "parent: names and separator exchange roles (or a name falls through into the separator branch)"))
+        if not (collect & is_name):
+            problems.append(("token-roles:name-not-collected", "a token that is a name never reaches the statement that collects it"))
+        if not (flush & is_dash):
+            problems.append(("token-roles:separator-ignored", "the separator never reaches the statements that give the group its parent"))
+        for role, text in problems:
+            r.fail(Finding(rid, f, role, text, node=w.loop))
+        if not problems:
+            r.ok({"name": "collected only", "separator": "flushes the group"})
+    r.require_sites(1)
+    return r
+
+
+def rule_grouplink(repo: Repo, rid: str = "C06.grouplink") -> RuleResult:
+    """what a flushed group is linked to: the root type exactly when the parent token is 'object' (else the type registered under that
+    token); every name of the group gets the link on every path through its turn; names left after the last separator are registered
+    as children of the root on every way from the end of the walk to the return."""
+    from . import _c06_util as U
+    r = RuleResult(rid, "parse_types: a group is linked to ObjectType iff its parent token is 'object'; every member is linked on every path; trailing names become children of the root",
+                   "child - parent declarations; trailing untyped names")
+    w = U.TypesWalk(repo)
+    f, g, G = w.f, w.g, w.G
+    live = w.open0.seen
+    links = [(s_, n, parent, kind) for s_, n, parent, kind in w.link_sites() if n in live]
+    r.site(f.qn)
+    # (a) polarity of the root test
+    r.site(f.qn + " [parent token 'object' <-> root type]")
+    if "root" not in G.atoms_seen:
+        r.ok({"undecided": "no test of the parent token against 'object'"})
+    else:
+        og = {True: U.OpenGraph(G, {"root": True}), False: U.OpenGraph(G, {"root": False})}
+        judged, wrong = 0, []
+        for s_, n, parent, kind in links:
+            k0 = w.parent_kinds(w.open0, parent)
+            if not k0 or "OTHER" not in k0 or "ROOT" not in k0:
+                continue            # a link that is the root on every path (trailing names) or a looked-up type on every path
+            judged += 1
+            for is_root in (True, False):
+                if n not in og[is_root].seen:
+                    continue
+                kinds = w.parent_kinds(og[is_root], parent)
+                if kinds is None:
+                    continue
+                if is_root and kinds != {"ROOT"}:
+                    wrong.append((s_, "with the parent token being 'object' the group is linked to a type looked up / registered under that name instead of ObjectType"))
+                if not is_root and "ROOT" in kinds:
+                    wrong.append((s_, "with the parent token NOT being 'object' the group is linked to ObjectType: the declared parent is dropped and the tree is flattened"))
+        if wrong:
+            r.fail(Finding(rid, f, "root-test:polarity", wrong[0][1], node=wrong[0][0]))
+        else:
+            r.ok({"links_judged": judged, "object": "ObjectType", "other": "looked-up type"})
+    # (b) every member of a group is linked on every path through its turn
+    r.site(f.qn + " [every member linked]")
+    member_loops = []
+    for lp in ast.walk(f.node):
+        if isinstance(lp, ast.For) and g.node_of(lp) in live and isinstance(lp.target, ast.Name) and w.is_member(lp.target):
+            inside = U._nodes_inside(g, lp)
+            mine = {n for _s, n, _p, _k in links if n in inside}
+            # (a walk that only gives the ROOT as parent -- trailing names -- may pass over a name that is registered already)
+            if mine and any("OTHER" in (w.parent_kinds(w.open0, p_) or ()) for _s, n, p_, _k in links if n in inside):
+                member_loops.append((lp, mine))
+    unlinked = [lp for lp, mine in member_loops if not L.must_pass_in_loop(G, {}, lp, mine)]
+    if unlinked:
+        r.fail(Finding(rid, f, "group:member-not-linked", "a name of the group can pass its turn of the flush without getting the parent (neither a new "
+                       "type with that parent nor the parent link of the registered type is set): the declaration is lost for types seen before",
+                       node=unlinked[0]))
+    else:
+        r.ok({"member_loops": len(member_loops), "each_member": "linked on every path"})
+    # (c) names left over after the last separator
+    r.site(f.qn + " [trailing names registered under the root]")
+    collect = w.collect_nodes() & w.inside
+    if w.loop is None or not collect:
+        r.ok({"undecided": "group accumulator not recognised"})
+    else:
+        og0 = w.open0
+        targets = set()
+        for s_, n, parent, kind in links:
+            if kind != "new" or n in w.inside or w.parent_kinds(og0, parent) != {"ROOT"}:
+                continue
+            cur, top = s_, None
+            while cur in w.pm:
+                cur = w.pm[cur]
+                if isinstance(cur, (ast.For, ast.While)):
+                    top = cur
+            targets.add(g.node_of(top) if top is not None else n)
+        head = g.node_of(w.loop)
+        starts = [m for m in og0.succ.get(head, []) if m not in w.inside]
+        ends = lambda n: n == g.exit or g.kind.get(n) == "return"
+        if not targets:
+            r.fail(Finding(rid, f, "trailing-names:not-registered", "no statement after the token walk registers the names collected after the last "
+                           "separator as children of the root: '(:types a b c)' declares nothing", node=w.loop))
+        elif og0.reaches(starts, ends, avoid=targets):
+            r.fail(Finding(rid, f, "trailing-names:skipped", "the function can return after the token walk without passing the registration of the "
+                           "names collected after the last separator", node=w.loop))
+        else:
+            r.ok({"trailing_names": "registered as children of ObjectType on every way to the return"})
+    r.require_sites(1)
+    return r
+
+
+def rule_typegraph(repo: Repo, rid: str = "C06.graph") -> RuleResult:
+    """create_type_hierarchy_graph by provenance: every type name is added as a node, every type that has a parent gets the edge
+    (parent name -> own name), on every turn of a walk over all types that is not left early; the filled graph is what is returned."""
+    r = RuleResult(rid, "create_type_hierarchy_graph: every type is a node, every declared link one edge parent -> child, the filled graph is returned",
+                   "the exported hierarchy graph is the declared tree")
+    f = L.fn(repo, "create_type_hierarchy_graph")
+    p = L.prov(repo, f)
+    g = C.cfg_of(f.node)
+    params = [x for x in f.params if x != f.self_name]
+    if not params:
+        raise AnalysisError("create_type_hierarchy_graph: the types parameter was not found")
+    root = f"param:{params[0]}"
+
+    def tr(e):
+        return _trace_opt(p, e)
+
+    def is_graph(e) -> bool:
+        return any(any(s_ == f"call:{GRAPH_CTOR}" or s_.endswith(f":{GRAPH_CTOR}") for s_ in x) or x[0].endswith(GRAPH_CTOR) for x in tr(e))
+
+    def kind_of(paths) -> Optional[str]:
+        """'parent': the name of the parent of a type of the dictionary; 'child': a key of the dictionary / the type's own name"""
+        ks = set()
+        for x in paths:
+            if x[0] != root:
+                if x[0].startswith("fresh:") or x[0].startswith("const:"):
+                    continue
+                ks.add("other")
+            elif f"attr:{'parent'}" in x:
+                ks.add("parent")
+            else:
+                ks.add("child")
+        return ks.pop() if len(ks) == 1 else ("mixed" if ks else None)
+
+    def parent_atom(e):
+        t = e
+        neg = False
+        if isinstance(t, ast.Compare) and len(t.ops) == 1 and isinstance(t.comparators[0], ast.Constant) and t.comparators[0].value is None \
+                and isinstance(t.ops[0], (ast.Is, ast.IsNot, ast.Eq, ast.NotEq)):
+            neg = isinstance(t.ops[0], (ast.Is, ast.Eq))
+            t = t.left
+        elif not (isinstance(t, (ast.Name, ast.Attribute)) and isinstance(getattr(t, "ctx", None), ast.Load)):
+            return None
+        paths = tr(t)
+        if paths and all(x[0] == root and x[-1] == "attr:parent" for x in paths):
+            return "!has_parent" if neg else "has_parent"
+        return None
+
+    G = L.Guards(f, parent_atom)
+    pm = L.parents_of(f)
+    r.site(f.qn)
+    node_sites, edge_sites, unknown = [], [], []
+    for c in L.calls_in(f.node):
+        if isinstance(c.func, ast.Attribute) and is_graph(c.func.value):
+            m = c.func.attr
+            if m in GRAPH_NODE_METHODS and c.args:
+                node_sites.append((c, GRAPH_NODE_METHODS[m], c.args[0]))
+            elif m in GRAPH_EDGE_METHODS and c.args:
+                edge_sites.append((c, GRAPH_EDGE_METHODS[m], c.args))
+            elif c.args or c.keywords:
+                unknown.append(m)
+        elif callee_name(c) == GRAPH_CTOR and c.args:
+            edge_sites.append((c, "many", c.args))
+    if unknown:
+        r.notes.append(f"graph filled through {sorted(set(unknown))}: UNDECIDED by this rule")
+        r.ok({"undecided": sorted(set(unknown))})
+        r.require_sites(1)
+        return r
+
+    def enclosing_loops(e) -> List[ast.AST]:
+        out, cur = [], e
+        while cur in pm:
+            cur = pm[cur]
+            if isinstance(cur, (ast.For, ast.While)):
+                out.append(cur)
+        return out
+
+    def complete(site: ast.AST, valuation: dict, what: str) -> Optional[str]:
+        """a statement-level site inside loops: passed on every turn, the loops run over all types and are not left early"""
+        n = g.node_containing(site)
+        target = {n}
+        for lp in enclosing_loops(site):
+            if isinstance(lp, ast.For):
+                it = tr(lp.iter)
+                if not it or any(x[0] != root or any(s_.startswith("slice:") or s_.startswith("arg0:filter") for s_ in x) for x in it):
+                    return f"the walk that adds the {what} does not run over all types"
+            if not L.must_pass_in_loop(G, valuation, lp, target):
+                return f"a type can pass its turn of the walk without its {what} being added"
+            if L.leaves_loop_early(G, {}, lp):
+                return f"the walk that adds the {what} can be left before all types were visited"
+            target = {g.node_of(lp)}
+        return None
+
+    def filters_ok(comp: ast.AST, valuation: dict) -> bool:
+        val, _seen = G.under(valuation)
+        return all(C.eval3(c, val) is True for gen in comp.generators for c in gen.ifs)
+
+    # nodes
+    r.site(f.qn + " [every type is a node]")
+    node_problem = None
+    good_nodes = 0
+    nodes_unread = edges_unread = False
+    for c, how, arg in node_sites:
+        k = kind_of({x for x in tr(arg) if not (how == "many" and x == (root,))} or ({("%s" % root, "elem")} if how == "many" and (root,) in tr(arg) else set()))
+        if k in (None, "other", "mixed"):
+            nodes_unread = True         # what is added is computed out of sight (a helper that is not analysed in place)
+            continue
+        if k != "child":
+            continue
+        why = complete(c, {}, "node")
+        if isinstance(arg, (ast.ListComp, ast.SetComp, ast.GeneratorExp)) and not filters_ok(arg, {}):
+            why = "the types that become nodes are filtered"
+        if why is None:
+            good_nodes += 1
+        else:
+            node_problem = node_problem or why
+    if good_nodes:
+        r.ok({"nodes": "every key of the type dictionary"})
+    elif nodes_unread and node_problem is None:
+        r.ok({"undecided": "the nodes are computed by a helper that is not analysed in place"})
+    else:
+        r.fail(Finding(rid, f, "type-graph:nodes", (node_problem or "no statement adds the name of every type as a node") +
+                       ": a type that no edge touches (the root of a domain without declared types) is missing from the graph"))
+    # edges
+    r.site(f.qn + " [every declared link is one edge parent -> child]")
+    edge_problem, direction, good_edges = None, None, 0
+    for c, how, args in edge_sites:
+        if how == "one":
+            if len(args) < 2:
+                continue
+            first, second = kind_of(tr(args[0])), kind_of(tr(args[1]))
+        else:
+            paths = tr(args[0])
+            first = kind_of({x for x in paths if "in:0" in x})
+            second = kind_of({x for x in paths if "in:1" in x})
+        if (first, second) == GRAPH_EDGE:
+            why = complete(c, {"has_parent": True}, "edge")
+            comps = [x for x in ast.walk(args[0])] if how == "many" else []
+            src = args[0]
+            if how == "many" and isinstance(src, ast.Name):
+                defs_ = [v_ for nm_, v_, _s in C.simple_bindings(f.node) if nm_ == src.id]
+                src = defs_[0] if len(defs_) == 1 else src
+            if how == "many" and isinstance(src, (ast.ListComp, ast.SetComp, ast.GeneratorExp)) and not filters_ok(src, {"has_parent": True}):
+                why = "the links that become edges are filtered by more than 'the type has a parent'"
+            if why is None:
+                good_edges += 1
+            else:
+                edge_problem = edge_problem or why
+        elif (second, first) == GRAPH_EDGE:
+            direction = c
+        elif first in (None, "other", "mixed") or second in (None, "other", "mixed"):
+            edges_unread = True
+        else:
+            edge_problem = edge_problem or f"an edge is added between ({first}, {second}) instead of (parent name, own name)"
+    if direction is not None:
+        r.fail(Finding(rid, f, "type-graph:edge-direction", f"{unparse(direction, 70)} adds the edge child -> parent: the descendants of a type in the graph "
+                       f"are its supertypes (expected {GRAPH_EDGE[0]} -> {GRAPH_EDGE[1]})", node=direction))
+    elif good_edges:
+        r.ok({"edges": "(parent name, own name) for every type that has a parent"})
+    elif edges_unread and edge_problem is None:
+        r.ok({"undecided": "the end points of the edges are computed by a helper that is not analysed in place"})
+    else:
+        r.fail(Finding(rid, f, "type-graph:edges", (edge_problem or "no statement adds an edge from the parent of a type to the type") +
+                       ": declared 'child - parent' links are missing from the graph"))
+    # the filled graph is returned
+    r.site(f.qn + " [filled graph returned]")
+    rets = L.returned_exprs(f)
+    if rets and all(os_ and all(is_graph(o) for o in os_) for _rt, os_ in rets):
+        r.ok({"returns": "the graph"})
+    else:
+        r.fail(Finding(rid, f, "type-graph:not-returned", "a return of create_type_hierarchy_graph does not hand back the graph that was filled"))
+    r.require_sites(3)
+    return r
+
+
+
 def rules(repo: Repo, tier: str) -> List[RuleResult]:
     from . import c01
     return [c01.rule_typedlist(repo, "C06.typedlist", ["DomainParser.parse_types"], lookup_required=False), rule_conform(repo), rule_layering(repo),
             rule_range(repo, "C06.range", "Operator.apply"),
             rule_range(repo, "C06.range", "GroundedPrecondition.is_applicable"), rule_direction(repo), rule_closure(repo), rule_identity(repo), rule_parentlink(repo),
-            rule_walk(repo), rule_root(repo), _c05()._rule_memo(repo, "C06.cache")]
+            rule_walk(repo), rule_root(repo), _c05()._rule_memo(repo, "C06.cache"),
+            rule_tokenwalk(repo), rule_grouplink(repo), rule_typegraph(repo)]
 
 
 def _c05():
